@@ -1013,7 +1013,8 @@ class StubsStringGenerator:
             # Get alias
             alias = None
             for qualified_import in shortest_reexport_module.qualified_imports:
-                if qualified_import.qualified_name.endswith(node.name):
+                # The import has to name this node, not one whose name just ends with the name of this node
+                if qualified_import.qualified_name.split(".")[-1] == node.name:
                     alias = qualified_import.alias
 
             if alias:
